@@ -16,20 +16,21 @@ import (
 )
 
 type CaseC03 struct {
-	Mode    string      `json:"mode"` // map-xml | map-indent | any | any-indent | j2x
-	Value   interface{} `json:"value"`
-	Tags    []string    `json:"tags,omitempty"` // AnyXml: root tag, element tag
-	Prefix  string      `json:"prefix,omitempty"`
-	Ind     string      `json:"ind,omitempty"`
-	GoEmpty bool        `json:"go_empty,omitempty"`
-	PreFail bool        `json:"pre_fail,omitempty"` // failing encoder calls precede the call under test
-	Typed   []string    `json:"typed,omitempty"`    // Go types given to the numeric scalars, in walk order, cyclically ("" keeps float64)
-	Alias   *AliasSpec  `json:"alias,omitempty"`    // one container object gets a second parent in the value (a Map built in Go may share sub-structure)
+	Mode      string      `json:"mode"` // map-xml | map-indent | any | any-indent | j2x
+	Value     interface{} `json:"value"`
+	Tags      []string    `json:"tags,omitempty"` // AnyXml: root tag, element tag
+	Prefix    string      `json:"prefix,omitempty"`
+	Ind       string      `json:"ind,omitempty"`
+	GoEmpty   bool        `json:"go_empty,omitempty"`
+	PreFail   bool        `json:"pre_fail,omitempty"`   // failing encoder calls precede the call under test
+	Typed     []string    `json:"typed,omitempty"`      // Go types given to the numeric scalars, in walk order, cyclically ("" keeps float64)
+	KeyPrefix string      `json:"key_prefix,omitempty"` // "_": SetGlobalKeyMapPrefix("_") is in force; the text key is _text and keys like _seq, _comment are ordinary elements
+	Alias     *AliasSpec  `json:"alias,omitempty"`      // one container object gets a second parent in the value (a Map built in Go may share sub-structure)
 }
 
 func init() { register("C03", checkC03) }
 
-func specialKey(k string) bool { return k == "#text" || (strings.HasPrefix(k, "-") && len(k) > 1) }
+func specialKey(k string) bool { return k == refTextKey || (strings.HasPrefix(k, "-") && len(k) > 1) }
 
 func genC03(t *rapid.T) CaseC03 {
 	// keys include the words the encoders use themselves (default root and element tags, explicit root tags)
@@ -79,6 +80,10 @@ func genC03(t *rapid.T) CaseC03 {
 		case 2:
 			c.Tags = []string{"myroot", "myelem"}
 		}
+	}
+	if rapid.IntRange(0, 5).Draw(t, "keyprefix") == 0 {
+		c.KeyPrefix = "_"
+		c.Value = underscoreKeys(t, c.Value)
 	}
 	if rapid.IntRange(0, 7).Draw(t, "alias") == 0 {
 		c.Alias = &AliasSpec{Src: rapid.IntRange(0, 30).Draw(t, "asrc"), Dst: rapid.IntRange(0, 30).Draw(t, "adst"), Key: rapid.SampledFrom([]string{"al", "a", "b"}).Draw(t, "akey")}
@@ -142,6 +147,38 @@ func materialize(v interface{}, typed []string, n *int) interface{} {
 	return v
 }
 
+// underscoreKeys prepares a value for the "_" key prefix: the text key becomes _text, and some maps get entries
+// whose keys are spelled like the keys the SEQUENCE codec reserves under that prefix - ordinary elements for Map.Xml.
+func underscoreKeys(t *rapid.T, v interface{}) interface{} {
+	switch x := v.(type) {
+	case map[string]interface{}:
+		out := map[string]interface{}{}
+		for _, k := range sortedKeys(x) {
+			nk := k
+			if k == "#text" {
+				nk = "_text"
+			}
+			out[nk] = underscoreKeys(t, x[k])
+		}
+		if rapid.IntRange(0, 2).Draw(t, "reservedkey") == 0 {
+			k := rapid.SampledFrom([]string{"_seq", "_comment", "_attr", "_directive", "_procinst", "_target", "_inst"}).Draw(t, "rk")
+			if rapid.Bool().Draw(t, "rkmap") {
+				out[k] = map[string]interface{}{"in": "x", "n": float64(1)}
+			} else {
+				out[k] = rapid.SampledFrom([]interface{}{"v", float64(7), true, nil}).Draw(t, "rkv")
+			}
+		}
+		return out
+	case []interface{}:
+		out := make([]interface{}, len(x))
+		for i := range x {
+			out[i] = underscoreKeys(t, x[i])
+		}
+		return out
+	}
+	return v
+}
+
 // failingEncodes calls the encoders with values they must reject; whatever they do, they must not
 // influence a later call (encoding is a function of the Map alone).
 func failingEncodes() {
@@ -153,7 +190,9 @@ func failingEncodes() {
 	mxj.AnyXmlIndent([]interface{}{map[string]interface{}{"a": map[string]interface{}{"-b": nil}}}, "", " ")
 	(mxj.Map{"f": math.NaN(), "g": "x"}).Json()
 	(mxj.Map{"f": math.Inf(1)}).JsonIndent("", " ")
-	(mxj.MapSeq{"r": map[string]interface{}{"#attr": map[string]interface{}{"a": map[string]interface{}{"#text": nil, "#seq": 0}}, "e": map[string]interface{}{"#seq": "x"}}}).Xml()
+	if refTextKey == "#text" { // a hand-built MapSeq is written for the default key prefix only
+		(mxj.MapSeq{"r": map[string]interface{}{"#attr": map[string]interface{}{"a": map[string]interface{}{"#text": nil, "#seq": 0}}, "e": map[string]interface{}{"#seq": "x"}}}).Xml()
+	}
 }
 
 func nestedClasses(v interface{}, out map[string]bool) {
@@ -196,6 +235,14 @@ func nestedClasses(v interface{}, out map[string]bool) {
 func checkC03(c CaseC03, info *Info) *Failure {
 	defer resetOptions()
 	mxj.XMLEscapeChars(true)
+	decOpts := defaultOpts()
+	if c.KeyPrefix == "_" {
+		mxj.SetGlobalKeyMapPrefix("_")
+		refTextKey = "_text"
+		defer func() { refTextKey = "#text" }()
+		decOpts.KeyPrefix = "_"
+		info.Class("global key prefix _ with keys spelled like reserved ones")
+	}
 	if c.GoEmpty {
 		mxj.XmlGoEmptyElemSyntax()
 	}
@@ -313,11 +360,12 @@ func checkC03(c CaseC03, info *Info) *Failure {
 		return failf("receiver-modified", "mode %s value %s changed to %s", c.Mode, canon(c.Value), canon(val))
 	}
 	resetOptions()
+	decOpts.apply()
 	got, derr := mxj.NewMapXml(x)
 	if derr != nil {
 		return failf("decode-error", "mode %s xml %q: %v", c.Mode, x, derr)
 	}
-	k, v := refDecode(root, defaultOpts())
+	k, v := refDecode(root, decOpts)
 	want := map[string]interface{}{k: v}
 	if !valEqual(map[string]interface{}(got), want) {
 		return failf("data-mismatch", "mode %s value %s\nxml %q\n got  %#v\n want %#v", c.Mode, canon(c.Value), x, got, want)
